@@ -119,6 +119,7 @@ def machine_factory(tally, fail):
             self.spreads = None
             self.had_repop_after_relabel = False
             self.relabelled = False
+            self.model = None
 
         @initialize(K=st.integers(2, 6), m=st.integers(1, 4), T=st.one_of(st.integers(0, 30), st.integers(30, 200)), seed=st.integers(0, 2 ** 31))
         def start(self, K, m, T, seed):
@@ -150,9 +151,37 @@ def machine_factory(tally, fail):
             self.trace.append({"op": "repopulate", "seed": seed, "spreads": list(self.spreads)})
             self._do_repopulate(seed)
 
+        def _lineage_model(self):
+            """The state a real run would hand to the step: derived from the previous state by the phases' own idioms
+            (fresh clusters + label assignment for a relabelling; shallow cluster copies with new fitted covariances for an
+            optimisation), not rebuilt from scratch."""
+            if self.model is None or len(self.model.point_labels) != len(self.labels):
+                self.model = rm.build_model(self.labels, self.K, self.m, self.spreads)
+                return self.model
+            cur = self.model
+            if [int(v) for v in cur.point_labels] != list(self.labels):
+                nxt = cur.shallow_copy()
+                nxt.clusters = [c.deep_copy() for c in nxt.clusters]
+                nxt.point_labels = list(self.labels)
+                cur = nxt
+            spreads_now = [float(np.linalg.norm(c.computed_covariance)) for c in cur.clusters]
+            if spreads_now != [float(s) for s in self.spreads]:
+                nxt = cur.shallow_copy()
+                new_clusters = []
+                for k, c in enumerate(nxt.clusters):
+                    c2 = c.shallow_copy()
+                    cov = np.zeros((1, 1))
+                    cov[0, 0] = float(self.spreads[k])
+                    c2.computed_covariance = cov
+                    new_clusters.append(c2)
+                nxt.clusters = new_clusters
+                cur = nxt
+            self.model = cur
+            return cur
+
         def _do_repopulate(self, seed):
             try:
-                obs = rm.check_repopulation(self.labels, self.K, self.m, self.spreads, seed, tally)
+                obs = rm.check_repopulation(self.labels, self.K, self.m, self.spreads, seed, tally, model=self._lineage_model())
             except Violation as v:
                 fail.case, fail.violation = {"trace": self.trace}, v
                 tally.frozen = True
@@ -166,6 +195,7 @@ def machine_factory(tally, fail):
                 tally.cls("step_error_path")
             elif obs["needy"]:
                 self.labels = obs["new_labels"]
+                self.model = obs["out"]
 
         def teardown(self):
             if self.had_repop_after_relabel:
@@ -178,17 +208,23 @@ def machine_factory(tally, fail):
 
 def execute_trace(case, t):
     """Replay of a recorded history (used by --replay)."""
-    labels = K = m = spreads = None
-    for step in case["trace"]:
-        if step["op"] == "start":
-            K, m, labels, spreads = step["K"], step["m"], list(step["labels"]), list(step["spreads"])
-        elif step["op"] == "relabel":
-            labels = list(step["labels"])
-        elif step["op"] == "repopulate":
-            spreads = list(step["spreads"])
-            obs = rm.check_repopulation(labels, K, m, spreads, step["seed"], t)
-            if obs["needy"] and not obs["error"]:
-                labels = obs["new_labels"]
+    from harness.core import Tally
+
+    class _F:
+        case = violation = None
+    mach = machine_factory(t, _F())()
+    try:
+        for step in case["trace"]:
+            if step["op"] == "start":
+                mach.K, mach.m, mach.labels, mach.spreads = step["K"], step["m"], list(step["labels"]), list(step["spreads"])
+            elif step["op"] == "relabel":
+                mach.labels = list(step["labels"])
+                mach.relabelled = True
+            elif step["op"] == "repopulate":
+                mach.spreads = list(step["spreads"])
+                mach._do_repopulate(step["seed"])
+    finally:
+        t.frozen = False
     t.mark_nontrivial()
 
 
